@@ -24,6 +24,10 @@ def reasm(prop,extra_quick=(),extra_thorough=()):
     return {"jobs":jobs,"assumptions":REASM_ASSUME,"outside":REASM_OUT}
 C["C01"]=reasm("C01")
 C["C02"]=reasm("C02")
+C["C02"]["jobs"]+=[job("clock-k3-2s",".","VH_Reassembler",["C02/"],{"k":3,"maxInFlight":2,"timeout_mode":4,"forcepush":2,"plain":1},Q,clock="sym",bounds="two pushes of SYSCALL records then one free operation (SYSCALL push or Maintain) with a 2s timeout and every time.Now() reading symbolic: events may leave the buffer by expiry, order must still hold"),
+   job("clock-k3-2s-anytype",".","VH_Reassembler",["C02/"],{"k":3,"maxInFlight":2,"timeout_mode":4},T,clock="sym",bounds="k=3 free operations, record types symbolic, 2s timeout, symbolic clock"),
+   job("clock-k3-5ms-mif3",".","VH_Reassembler",["C02/"],{"k":3,"maxInFlight":3,"timeout_mode":3},T,clock="sym",bounds="k=3, 5ms timeout, maxInFlight=3, symbolic clock")]
+C["C02"]["assumptions"]=C["C02"]["assumptions"]+["clock jobs: each time.Now() returns an arbitrary non-decreasing instant"]
 C["C03"]=reasm("C03")
 C["C03"]["jobs"]+= [job("pin-ffffffff",".","VH_Reassembler",["C03/"],{"k":3,"maxInFlight":2,"pin":1},Q,bounds="k=3, first pushed sequence pinned to 0xFFFFFFFF"),
                     job("pin-zero",".","VH_Reassembler",["C03/"],{"k":3,"maxInFlight":2,"pin":2},Q,bounds="k=3, second pushed sequence pinned to 0")]
@@ -103,6 +107,8 @@ for i,t in enumerate(TYPES):
     big = t in ("SYSCALL","EXECVE","USER_START","LOGIN")
     c05.append(job(f"body-{t}","auparse","VH_BodyTotal",["C05/"],{"maxlen":6 if big else 5,"type":i},QO,bounds=f"Parse({t}, header + body) for every ASCII body of 0..{6 if big else 5} symbolic bytes, then Data/Tags/ToMapStr twice"))
     c05.append(job(f"body7-{t}","auparse","VH_BodyTotal",["C05/"],{"maxlen":7 if t!="AVC" else 5,"type":i},T,bounds=f"Parse({t}, header + body), body 0..7 symbolic ASCII bytes (AVC: 0..5, its pattern has 14 byte classes)"))
+c05.append(job("header-window-3","auparse","VH_HeaderBad",["C05/"],{"mode":5,"window":3},Q,bounds="Parse/ParseLogLine on \"audit\" + 0..3 symbolic ASCII bytes + header remainder (delimiters swapped, doubled, missing)"))
+c05.append(job("header-overwrite-2","auparse","VH_HeaderBad",["C05/"],{"mode":6},Q,bounds="a well-formed line with any two header positions overwritten by symbolic ASCII bytes"))
 c05.append(job("bare-header","auparse","VH_BodyTotal",["C05/"],{"maxlen":4,"type":0,"bare":1},Q,bounds="Parse(SYSCALL, \"audit(1.000:1)\" + tail) for every ASCII tail of 0..4 symbolic bytes (no separator after the header)"))
 c05.append(job("body-anytype","auparse","VH_BodyTotal",["C05/"],{"maxlen":4,"type":-1},T,bounds="record type symbolic (16 bit), body 0..4 symbolic ASCII bytes"))
 KEYS=["saddr","argc","a0","a1","exit","arch","syscall","sig","subj","obj","key","success","res","auid","old-auid","ses","cwd","exe","proctitle","cmd","data","name","acct","msg"]
@@ -135,6 +141,9 @@ for h in range(5):
     c04.append(job(f"hostile-{h}","auparse","VH_Header",["C04/"],{"typemode":0,"hostile":h,"secdigits":10,"seqdigits":10},Q,bounds="concrete hostile body #%d (well-known key names, extra msg=, delimiters, invalid UTF-8, empty)"%h))
 for mode,name in enumerate(["seq-out-of-range","bad-byte-in-field","empty-field","sign-in-sequence","truncations"]):
     c04.append(job("bad-"+name,"auparse","VH_HeaderBad",["C04/"],{"mode":mode,"seqdigits":10},Q,bounds="malformed header: "+name))
+for n in (3,5):
+    c04.append(job(f"bad-window-{n}","auparse","VH_HeaderBad",["C04/"],{"mode":5,"window":n},Q if n==3 else T,bounds=f"\"audit\" + every ASCII string of 0..{n} symbolic bytes + \"1.000:5): cwd=(x)\" and + \": a=b\": swapped, doubled, missing and misplaced header delimiters"))
+c04.append(job("bad-overwrite-2","auparse","VH_HeaderBad",["C04/"],{"mode":6},Q,bounds="a well-formed header \"audit(12.345:67): a=(b)\" with any two positions overwritten by symbolic ASCII bytes"))
 c04.append(job("bad-seq-11-digits","auparse","VH_HeaderBad",["C04/"],{"mode":0,"seqdigits":11},Q,bounds="sequence of 11 symbolic digits >= 2^32"))
 C["C04"]={"jobs":c04,"assumptions":PARSE_ASSUME+["expected numeric values are by construction (Horner over the same digit variables), not by parsing","time.Time.String is an uninterpreted injective rendering (the claim is about which instant reaches it)"],
    "outside":["bodies longer than 6 symbolic bytes","symbolic non-ASCII bytes in the body (concrete ones are in the hostile list)","stricter header grammars than first '(' '.' ':' ')' (the property does not define one)"]}
@@ -217,17 +226,21 @@ c06.append(job("mask-3","rule","VH_EncodeMask",["C06/"],{"maxsys":3},T,expect=["
 for n in (0,1,2,63,64,65):
     c06.append(job(f"many-{n}","rule","VH_EncodeMany",["C06/"],{"filters":n,"key":1},Q,bounds=f"{n} pid filters with symbolic values + one key ({n+1} fields)"))
 c06.append(job("many-64-nokey","rule","VH_EncodeMany",["C06/"],{"filters":64,"key":0},Q,bounds="64 filters, no key"))
+c06.append(job("compare","rule","VH_EncodeCompare",["C06/"],{},Q,bounds="-C a<op>b for all 25 UAPI AUDIT_COMPARE_* pairs in both orders x {=, !=} (exhaustive), plus rejected pairs and operators"))
 c06.append(job("watch","rule","VH_EncodeWatch",["C06/"],{},Q,bounds="file watches on a file, a directory and a non-existing path with a symbolic leaf (Stat stub), all 16 permission subsets, with/without key"))
 C["C06"]={"jobs":c06,"assumptions":RULE_ASSUME+["UAPI constants and struct offsets come from /usr/include/linux/audit.h of this image via a compiled C program (uapi/extract.py); the field-name -> macro map is transcribed from audit-userspace's fieldtab.h",
    "the Rule struct is built directly (flag text parsing is C07/C14's subject)","the top 16 bits of the last mask word are not constrained for the all-syscalls pattern (kernel syscall-class bits)"],
-   "outside":["strings longer than 3 symbolic bytes (length limits are checked by C13's concrete long strings)","user/group names other than root","-C comparisons (planned)"]}
+   "outside":["strings longer than 3 symbolic bytes (length limits are checked by C13's concrete long strings)","user/group names other than root"]}
 
-SHAPES=["aF","aFF","Fa","aS","aSk","aFk","Ak","aC","aCF","akk","aSS","w","wp","wk","wpk","pw","kw","D","Dk","F","S","C","aAF","aw","Dw","DaF","wF","","#aF","a#F","aF#","w#pk","wp#","D#","#D","aS#k"]
+SHAPES=["aF","aFF","Fa","aS","aSk","aFk","Ak","aC","aCF","akk","aSS","w","wp","wk","wpk","pw","kw","D","Dk","F","S","C","aAF","aw","Dw","DaF","wF","","#aF","a#F","aF#","w#pk","wp#","D#","#D","aS#k","aSp","paS","aFp","Dp","pD","p","pk","Sp","Cp"]
 c14=[]
 for i,sh in enumerate(SHAPES):
     hole = 4 if sh.count("F")+sh.count("C")<=1 else 3
-    c14.append(job("shape-"+(sh or "empty").replace("#","stray"),"rule/flags","VH_Tokens",["C14/"],{"shape":i,"hole":hole,"arghole":3},Q,
-       bounds=f"line shape '{sh}' (a/A: 5 list,action spellings; F/C: filter text of 0..{hole} symbolic ASCII bytes in single quotes; S/k/w/p: 0..3 symbolic bytes; #: a stray word)"))
+    ah = 2 if i>=36 and len(sh)==3 else 3
+    c14.append(job("shape-"+(sh or "empty").replace("#","stray"),"rule/flags","VH_Tokens",["C14/"],{"shape":i,"hole":hole,"arghole":ah},Q,
+       bounds=f"line shape '{sh}' (a/A: 5 list,action spellings; F/C: filter text of 0..{hole} symbolic ASCII bytes in single quotes; S/k/w/p: 0..{ah} symbolic bytes; #: a stray word)"))
+    if ah==2:
+        c14.append(job("shape3-"+sh,"rule/flags","VH_Tokens",["C14/"],{"shape":i,"hole":hole,"arghole":3},T,bounds=f"line shape '{sh}' with S/k/w/p arguments of 0..3 symbolic bytes"))
     if "F" in sh or "C" in sh:
         c14.append(job("shape6-"+sh.replace("#","stray"),"rule/flags","VH_Tokens",["C14/"],{"shape":i,"hole":6,"arghole":4},T,bounds=f"line shape '{sh}' with filter text of 0..6 symbolic bytes"))
 C["C14"]={"jobs":c14,"assumptions":PARSE_ASSUME[:2]+["hole bytes are ASCII and free of single quotes, so shell quoting of the assembled line is exact","repeated single-valued flags (-w x -w y, -a .. -a ..) are outside the domain explored: the property does not say whether last-wins is acceptable",
